@@ -1,7 +1,11 @@
 """C01 — relate matrix and named predicates equal the exact DE-9IM on grid inputs.
 
 proof : lean/GeosModel/Props/C01.lean — predicate layer (named predicates = their DE-9IM patterns,
-        determined_stable, early_exit_eq_final, basic_*_final) for all matrices / event sequences.
+        determined_stable, early_exit_eq_final, basic_*_final, envelope_exit_sound, exterior_check_irrelevant_*) for all matrices /
+        event sequences.
+transl: translate/im_preds.py -> Generated/IMPreds.lean -> Props/C01Gen.lean (geom::IntersectionMatrix predicates);
+        translate/cxx2lean.py spec relate_pred -> Generated/RelatePred.lean -> Props/C01GenPred.lean (the predicate classes of RelateNG,
+        their requirement flags and RelateNG::hasRequiredEnvelopeInteraction), regenerated from the current source on every run.
 tie   : (1b) stream immatrix — the real geom::IntersectionMatrix (isXxx, matches, transpose) and GEOSRelatePatternMatch_r on random
             matrices / dimensions / patterns vs Base/IM, the object of the named_*_eq_pattern theorems
         (1) stream pred-sm  — the REAL RelatePredicate classes are driven with random event sequences and
@@ -135,7 +139,13 @@ def run(ctx):
         ctx.violation("translate/im_preds.py refuses the current src/geom/IntersectionMatrix.cpp: %s (the generated model is stale; the `immatrix` "
                       "correspondence stream below still compares the compiled predicates with the model)" % ex,
                       {"kind": "tie-broken", "translator": "im_preds.py", "detail": str(ex)}, nofail=True)
-    proved = ctx.prove(props, extra_targets=(DRV,))
+    # the predicate layer of RelateNG (BasicPredicate / IMPredicate / the ten RelatePredicate classes / RelateMatrixPredicate / IMPatternMatcher /
+    # RelateNG::hasRequiredEnvelopeInteraction) is regenerated by translate/cxx2lean.py (spec relate_pred); Props/C01GenPred proves every
+    # regenerated function equal to the state machine of Model/Relate/Pred.lean + Model/Relate/EnvExit.lean for all arguments
+    proved = ctx.prove_generated([("relate_pred", "GeosModel/Generated/RelatePred.lean", "GeosModel.Props.C01GenPred")], props, extra_targets=(DRV,))
+    impreds = os.path.join(verif.ROOT, "lean", "GeosModel", "Generated", "IMPreds.lean")
+    ctx.cov["translator"]["im_preds"] = {"generated": "GeosModel/Generated/IMPreds.lean", "bridge": "GeosModel.Props.C01Gen", "translator": "translate/im_preds.py",
+                                         **({"functions": sum(1 for l in open(impreds) if l.startswith("def "))} if gen_ok else {"refused": True})}
     gen_diffs = []
     if gen_ok and not proved:
         # a gen_*_eq obligation may be what broke: enumerate the whole finite domain for a distinguishing argument
@@ -180,14 +190,23 @@ def run(ctx):
     if r["error"]:
         ctx.violation("stream pred-sm could not run: " + r["error"], {"kind": "tie-broken", "correspondence": "pred-sm", "detail": r["error"]}, nofail=True)
     else:
-        seen_final = seen_mid = False
+        seen_final = seen_mid = seen_flags = False
         for idx, case, exp, got in r["disagreements"]:
+            if exp.split(" ")[0] != got.split(" ")[0] and not seen_flags:
+                seen_flags = True
+                ctx.violation("requirement flags of a predicate class differ from the model (Model/Relate/EnvExit.lean): impl %s, model %s"
+                              % (exp.split(" ")[0], got.split(" ")[0]),
+                              {"kind": "tie-broken", "correspondence": "pred-sm", "case": case, "impl": exp, "model": got,
+                               "note": "flags = requireCovers(A) requireCovers(B) requireExteriorCheck(A) requireExteriorCheck(B) requireInteraction; "
+                                       "envelope_exit_sound / exterior_check_irrelevant_* are proved for the model's flags"}, nofail=True)
+            if exp.split(" ")[1:] == got.split(" ")[1:]:
+                continue
             if exp[-1:] != got[-1:] and not seen_final:
                 seen_final = True
                 found_input = True
                 ctx.violation("predicate class ends with a value different from the DE-9IM definition on the matrix its events build",
                               {"kind": "failing-input", "stream": "pred-sm", "case": case, "impl_trace": exp, "model_trace": got,
-                               "note": "trace = value after init(dims), init(envs), each updateDimension, finish (u/t/f)"})
+                               "note": "flags, then trace = value after init(dims), init(envs), each updateDimension, finish (u/t/f)"})
             elif exp[-1:] == got[-1:] and not seen_mid:
                 seen_mid = True
                 ctx.violation("predicate state machine differs from the model at an intermediate step (final value agrees)",
@@ -257,10 +276,11 @@ def run(ctx):
         if sig != sig0 and sig in seen:
             continue
         seen.append(sig)
-        found_input = True
-        ctx.violation("relate differs from the exact DE-9IM: %s  [%s]" % (got, json.dumps(sig, sort_keys=True)),
-                      {"kind": "failing-input", "stream": "relate-grid", "A": a, "B": b, "A_wkt": gtok.wkt(a), "B_wkt": gtok.wkt(b),
-                       "verdict": got, "signature": sig}, signature=sig)
+        # (a pair matching a KNOWN finding is not recorded and is not a failing input for a broken proof / tie)
+        if ctx.violation("relate differs from the exact DE-9IM: %s  [%s]" % (got, json.dumps(sig, sort_keys=True)),
+                         {"kind": "failing-input", "stream": "relate-grid", "A": a, "B": b, "A_wkt": gtok.wkt(a), "B_wkt": gtok.wkt(b),
+                          "verdict": got, "signature": sig}, signature=sig):
+            found_input = True
     corr["relate-grid"]["skipped"] = skipped
     # ---- (3) the oracle itself against the expected matrices written by hand in the repository's XML suites
     rc, out = verif.sh([os.path.join(verif.ROOT, "bin", "xmlrelate-crosscheck")], timeout=1800)
